@@ -16,7 +16,7 @@ PROPS = {
     "C02": dict(lean=["GoatSpec.Properties.C02"], streams=["marks-corpus", "marks-stdlib", "marks-gen"], e2e=["track"], trusted=_INSTR_TRUSTED,
                 assumptions=["A2: go/printer∘go/parser preserves syntax tree and comments", "A3: astutil.AddNamedImport only edits import declarations"]),
     "C03": dict(lean=["GoatSpec.Properties.C03"], streams=["marks-corpus", "marks-stdlib", "marks-gen"], e2e=["track"], trusted=_INSTR_TRUSTED, assumptions=[]),
-    "C09": dict(lean=["GoatSpec.Properties.C09"], streams=["marks-corpus", "marks-stdlib", "marks-gen"], e2e=["track"], trusted=_INSTR_TRUSTED, assumptions=[]),
+    "C09": dict(lean=["GoatSpec.Properties.C09", "GoatSpec.Properties.C09Shape"], streams=["marks-corpus", "marks-stdlib", "marks-gen"], e2e=["track"], trusted=_INSTR_TRUSTED, assumptions=[]),
     "C06": dict(
         lean=["GoatSpec.Properties.C06"],
         streams=["text-pass-raw", "text-clean-tokens", "text-clean-file"],
